@@ -164,6 +164,8 @@ pub struct HandlerRunner {
     /// time the node made its next session with that peer
     key_pair: HashMap<[u8; 16], [u8; 16]>,
     dead_keys: HashSet<(u64, [u8; 16])>,
+    /// nodes whose application is not reading what its handler reports for the time being
+    held: HashSet<u64>,
     entry_use: HashMap<(u64, SocketAddr), std::time::Instant>,
     /// C13: challenges a node put on the wire: (node, challenge) -> (not issued before (ledger ms), address);
     /// and when a handshake was last delivered to a node from an address
@@ -247,6 +249,7 @@ impl Default for HandlerRunner {
             key_born: HashMap::new(),
             key_pair: HashMap::new(),
             dead_keys: HashSet::new(),
+            held: HashSet::new(),
             entry_use: HashMap::new(),
             chal_issued: HashMap::new(),
             key_ctr: HashMap::new(),
@@ -646,6 +649,9 @@ impl HandlerRunner {
             .collect();
         let mut refills = 0;
         loop {
+            if self.held.contains(&idx) {
+                break;
+            }
             let ev = match self.nodes[ni].from_handler.try_recv() {
                 Ok(e) => e,
                 Err(_) => {
@@ -1907,6 +1913,24 @@ impl HandlerRunner {
                 stats.bump("h.op.adv");
                 self.finish(None, None, ms, out, stats);
             }
+            // the application of node X stops / resumes reading what its handler reports (a slow consumer:
+            // the bounded channel fills up; whatever the handler has to say is said once there is room)
+            ["hhold", x] => {
+                if let Some(xi) = self.node_pos(x) {
+                    let idx = self.nodes[xi].idx;
+                    self.held.insert(idx);
+                    stats.bump("h.op.application-stops-reading");
+                }
+                out.push("!OP hnop".into());
+                out.push("-".into());
+            }
+            ["hrelease", x] => {
+                if let Some(xi) = self.node_pos(x) {
+                    let idx = self.nodes[xi].idx;
+                    self.held.remove(&idx);
+                }
+                self.finish(None, None, 1, out, stats);
+            }
             // attacker crafts a datagram and appends it to the wire log (delivered with `hdel`)
             ["hcraft", kind, args @ ..] => {
                 stats.bump(&format!("h.op.craft.{}", kind));
@@ -2470,6 +2494,37 @@ pub fn gen_case(rng: &mut Rng, tier: &str, profile: &str, stats: &mut Stats) -> 
             ops.push("hwru 2 next known".into());
             ops.push("hdel next".into());
         }
+        ops.push("hquiet".into());
+        return ops;
+    }
+    if profile == "C04hold" {
+        // a slow application: 55-70 requests to a silent peer queue up behind the first one; the
+        // application stops reading; the first request runs out of retries and every request to that
+        // peer fails at once - more reports than the channel to the application holds; the application
+        // reads again: every request has its outcome
+        stats.bump("gen.cases.slow-application");
+        let x = rng.range(1, 2);
+        let y = 3 - x;
+        let m = rng.range(55, 70);
+        let mut ops = vec![format!("hworld 2 {} 400 1000 86400000", rng.range(1, 2))];
+        let with_session = rng.chance(1, 2);
+        let mut rid = 1u64;
+        if with_session {
+            // (the requests are in flight on a session instead; the peer has gone silent)
+            ops.push(format!("hreq {} {} enr {} 1", x, y, rid)); rid += 1;
+            for _ in 0..2 { ops.push("hdel next".into()); }
+            ops.push(format!("hwru {} next known", y));
+            for _ in 0..3 { ops.push("hdel next".into()); }
+            ops.push(format!("hresp {} next auto", y));
+            ops.push("hdel next".into());
+        }
+        for _ in 0..m {
+            ops.push(format!("hreq {} {} enr {} {}", x, y, rid, rng.range(1, 4))); rid += 1;
+        }
+        ops.push(format!("hhold {}", x));
+        ops.push("hadv 900".into());
+        ops.push("hadv 900".into());
+        ops.push(format!("hrelease {}", x));
         ops.push("hquiet".into());
         return ops;
     }
